@@ -377,6 +377,27 @@ def size_cases(part):
             yield "total=stripped=%d in_script" % tgt, sized_tx(tgt, True, 0, "in_script")
             yield "total=stripped=%d out_script" % tgt, sized_tx(tgt, True, 0, "out_script")
             yield "total=stripped=%d many outputs" % tgt, sized_tx(tgt, True, 0, "in_script", n_in=3, n_out=2000)
+        # exact-limit transactions that also contain elements sitting on the compact-size boundaries (length or count of
+        # exactly 252 / 253 / 254 / 65535 / 65536): a size computed by adding up field sizes must agree with the bytes
+        for tgt in targets:
+            for edge in (252, 253, 254, 0xffff, 0x10000):
+                t = sized_tx(tgt - 0, True, 0, "in_script", n_in=2, n_out=2)
+                # second input's script and second output's script sit on the boundary; re-balance the padding
+                t["ins"][1]["script"] = b"\x51" * edge
+                t["outs"][1]["script"] = b"\x6a" * edge
+                pad = len(t["ins"][0]["script"]) - (len(R.serialize(t, with_witness=False)) - tgt)
+                if pad >= 0:
+                    t["ins"][0]["script"] = b"\x51" * pad
+                    for _ in range(6):
+                        d_ = tgt - len(R.serialize(t, with_witness=False))
+                        if d_ == 0:
+                            break
+                        t["ins"][0]["script"] = b"\x51" * (len(t["ins"][0]["script"]) + d_)
+                    if len(R.serialize(t, with_witness=False)) == tgt:
+                        yield "total=stripped=%d with %d-byte scripts" % (tgt, edge), t
+            for count in (252, 253, 254):
+                yield "total=stripped=%d with %d outputs" % (tgt, count), sized_tx(tgt, True, 0, "in_script", n_in=1, n_out=count)
+                yield "total=stripped=%d with %d inputs" % (tgt, count), sized_tx(tgt, True, 0, "out_script", n_in=count, n_out=1)
         yield "total=stripped=%d coinbase-sized plain" % (LIMIT + 5000), sized_tx(LIMIT + 5000, True, 0)
         yield "total=stripped=2*LIMIT", sized_tx(2 * LIMIT, True, 0, "out_script")
     else:
@@ -385,6 +406,10 @@ def size_cases(part):
             yield "total=%d mostly witness" % tgt, sized_tx(tgt, False, 1, "witness", n_in=2)
             yield "stripped=%d plus witness" % tgt, sized_tx(tgt, True, 3000, "out_script")
             yield "stripped=%d plus one witness byte" % tgt, sized_tx(tgt, True, 1, "in_script", n_in=2)
+        for tgt in targets:
+            t = sized_tx(tgt, True, 0, "in_script", n_in=2)
+            t["ins"][1]["witness"] = [b"\x33" * 253, b"\x44" * 252]
+            yield "stripped=%d plus 253-byte witness items" % tgt, t
         yield "stripped small, total 1.2M", sized_tx(1_200_000, False, 1, "witness")
         yield "stripped=%d, witness 300k" % (LIMIT - 50_000), sized_tx(LIMIT - 50_000, True, 300_000, "in_script")
 
